@@ -39,6 +39,11 @@ CHECKS["C19"] = dict(
    text="parse(t) equals the reference value (typed, UTF-16), every near-miss text is rejected with a SyntaxError the script itself catches, stringify(v) equals the SerializeJSONProperty transcription for values incl. undefined/functions/NaN/cycles/toJSON/replacer/indent, parse(stringify(v)) == v and stringify(parse(t)) == canonical(t); 1.15e5 cases quick, 1.9e6 thorough.",
    note="Trusts oracles/jsonref.py (0 disagreements with node on 78 201 generated cases at development time). Integer-key ordering and accessor serialisation are recorded known findings of the object model.",
    ref="4/C19")
+CHECKS["C09"] = dict(
+   technique="exhaustive small-pattern enumeration + Hypothesis random pattern ASTs with match-biased subjects, differential against a CPS transcription of the ECMAScript 22.2.2 matcher",
+   text="All pattern ASTs of <= 3 nodes (4 nodes and three-term sequences sampled/sharded; 5 nodes in thorough) over an alphabet with every operator kind x all subjects up to length 4-5 x flag sets, and random deeper patterns with subjects derived from the pattern, are matched by the engine (Python API, script-level RegExp and literals for a sample) and by an independent specification-style matcher; match/no match, index, matched text and every capture (unset vs empty) must agree. 3.3e6 attempts in quick, 5e7 in thorough.",
+   note="Trusts oracles/reref.py (0 disagreements with node 20 on 1.95e6 triples at development time). Cases where either side exhausts its step budget are out of scope. Unicode mode is outside the generated alphabet.",
+   ref="4/C09")
 NA = {}
 m = {
  "version": 1,
